@@ -302,6 +302,38 @@ def run(E: Engine, rep: Report, tier: str) -> dict:
         rep.check(ok, "TABLE", f"timing-field|{fld}|covered-by-strict", f"read at {sites}; compared under strict" + (" (whole-timeline comparison)" if timeline_cmp and fld not in covered else ""),
                   f"channel field '{fld}' influences the timeline (read by the scheduler at {sites}) but strict=True neither compares it in check_channels_match (compared: {sorted(compared)}) nor compares the whole timeline of every channel: "
                   "switch_device(strict=True) can return a sequence with a different timeline", where)
+    # ---- round 5 (independent audit) ----
+    # (a) every replayed call that NAMES a channel has a DMM name translated to the name the DMM got in the new sequence
+    #     (a DMM's name derives from its ID in the device): delay and align included, not only the DMM configuration calls
+    names_cmp = {x[3][1] if x[2][0] != "const" else x[2][1] for l in Sb.log for x in _symS.subterms(l.cond) if x[0] == "cmp" and x[1] == "Eq" and any(y[0] == "const" and isinstance(y[1], str) for y in (x[2], x[3]))}
+    rep.check({"delay", "align"} <= names_cmp, "TABLE", "switch_device|dmm-name-translated-in-delay-and-align", "the replay has branches for call.name == 'delay' / 'align' that translate DMM names", f"the replay translates channel names for {sorted(n for n in names_cmp if isinstance(n, str))} only: delay(..., 'dmm_0') and align('dmm_1', ...) are replayed with the OLD DMM name, so when the matched DMMs have other IDs the delay lands on another DMM (or the switch raises 'Use the name of a declared channel')", E.where(bsm))
+    # (b) the channel map is read for a DMM only when that DMM was declared (in XY mode an SLM mask declares none)
+    cm_reads = [l for l in Sb.log if l.kind in ("store", "assign", "call") and l.value is not None and any(t[0] == "idx" and t[1] == ("name", "channel_match") and any(u[0] == "call" and u[1] == ("name", "_get_dmm_name") for u in _symS.subterms(t[2])) for t in _symS.subterms(l.value))]
+    ok_cm = bool(cm_reads) and all(any(x[0] == "cmp" and x[1] == "In" and x[3] == ("name", "channel_match") for x in _symS.conj_of(l.cond)) for l in cm_reads)
+    rep.check(ok_cm, "TABLE", "switch_device|dmm-match-read-only-when-declared", "`channel_match[<dmm name>]` is read under `<dmm name> in channel_match`", "the replay reads channel_match[<name of the configured DMM>] unconditionally: in XY mode config_slm_mask does not declare its DMM, the map has no such key, and switch_device raises KeyError for every XY sequence with an SLM mask", E.where(bsm))
+    # (c) (d) relaxations of the parametrized strict EOM comparison
+    pops = [l for l in Sc.calls("pop") if l.value[2] and l.value[2][0][0] == "const"]
+    for key_, need, why in (("controlled_beams", ("Parametrized", "_to_build_calls"), "dropping controlled_beams from the comparison when the new EOM controls more beams is sound only if the stored setpoint is concrete: with a variable amp_on / detuning_on the detuning_off is chosen at build time among the new EOM's larger option set"),
+                            ("custom_buffer_time", ("custom_buffer_time",), "custom_buffer_time=None and a value equal to the default give the same Channel._eom_buffer_time, but disable_eom only waits for the fall without a custom buffer and always adds the whole buffer with one")):
+        ks = [l for l in pops if l.value[2][0][1] == key_]
+        if not ks:
+            continue
+        if key_ == "controlled_beams":
+            # the branch taken when the new EOM controls MORE beams than the old one
+            ks = [l for l in ks if any(x[0] == "cmp" and x[1] in ("Lt", "Gt") and _symS.contains(x, ("const", 1)) and mentions(x, "new_ch_obj", "new_eom_config") and "controlled_beams" in sh(x, 600) for x in _symS.conj_of(l.cond))
+                  and any(x[0] == "cmp" and x[1] in ("LtE", "GtE") and _symS.contains(x, ("const", 1)) and "controlled_beams" in sh(x, 600) for x in _symS.conj_of(l.cond))]
+            if not ks:
+                raise AnalysisError("anchor: the relaxation of check_channels_match on controlled_beams (new EOM controls more beams) was not found")
+            ok_k = all(any(mentions(x, *need) for x in _symS.conj_of(l.cond)) for l in ks) if ks else True
+        else:
+            ok_k = all(any(x[0] == "cmp" and x[1] == "Eq" and sh(x, 400).count("custom_buffer_time") >= 2 for x in _symS.conj_of(l.cond)) for l in ks)
+        rep.check(ok_k, "TABLE", f"strict-compare|{key_}|relaxation-is-sound", f"the relaxation on {key_} is conditioned as it must be", f"check_channels_match ignores `{key_}` too liberally: {why}", E.where(ccm, ks[0].node if ks else None))
+    # (e) limits that SHAPE the samples are compared too: Sequence._modulate_slm_mask_dmm clips the SLM-mask pulse to the
+    #     DMM's bottom_detuning / total_bottom_detuning
+    msd = E.method(SEQ, "_modulate_slm_mask_dmm")
+    shaping = {t[2] for l in S(E, msd, inline=False).log for v_ in (l.value,) if v_ is not None for t in _symS.subterms(v_) if t[0] == "attr" and t[2] in ("bottom_detuning", "total_bottom_detuning")}
+    dmm_cmp = any(mentions(l.cond, "bottom_detuning") for l in Sc.log) or any(mentions(l.cond, "bottom_detuning") or (l.loops and mentions(l.cond, "_slm_mask_dmm")) for l in Sb.logged("raise"))
+    rep.check(not shaping or dmm_cmp, "TABLE", "strict-compare|dmm-bottom-detunings-shape-the-slm-mask-pulse", "bottom_detuning / total_bottom_detuning compared under strict (or the SLM DMM's samples)", f"Sequence._modulate_slm_mask_dmm clips the SLM-mask pulse to {sorted(shaping)} of the DMM, so these limits shape the samples; the strict path neither compares them nor the DMM's samples: with bottom_detuning -100 on the old device and -20 on the new one a strict switch returns a sequence whose mask detuning is -20 instead of -50", E.where(ccm))
     rep.floor("TABLE", 6)
     # expected members (sanity of the derivation itself)
     for must in ("mod_bandwidth", "clock_period", "min_duration"):
